@@ -29,7 +29,7 @@ Expect(a, sh, d, c) ==
   ELSE IF ~c /\ a = "get_path" THEN "any"     \* a lazy lookup stops at the addressed value and never sees that the document is cut short
   ELSE IF ~c THEN "error"
   \* typed destinations, the innermost object holds a value of the wrong type before two known fields: a (well-formed) error
-  ELSE IF sh = "objbad" THEN (IF d <= 4000 THEN "error" ELSE "any")
+  ELSE IF sh \in {"objbad", "objdyn"} THEN (IF d <= 4000 THEN "error" ELSE "any")
   \* recursion through a slice takes two stack slots per level
   ELSE IF sh = "tree" THEN (IF d <= 2000 THEN "value" ELSE "any")
   ELSE IF d <= 4000 THEN "value"          \* well inside every bound
@@ -42,8 +42,10 @@ Init == IF Mode = "check"
         ELSE /\ api \in DecodeAPIs \cup EncodeAPIs
              \* "...sib": the root container has one more member after the deep chain (what is touched after returning from the bound)
              \* typed: the plain chain; "objskip" / "objbad": the innermost object has a skipped value (unknown key / wrong type) and then
-             \* two known fields - what the decoder touches right at the bound; "tree": recursion through a slice
-             /\ shape \in (IF api = "unmarshal_typed" THEN {"obj", "objskip", "objbad", "tree"}
+             \* two known fields - what the decoder touches right at the bound; "tree": recursion through a slice;
+             \* "objdyn": the outermost object starts with a value of the wrong type and a member for a field of a non-empty interface
+             \* type holding a non-pointer value (both errors, both skipped: the recovery paths of the two sites in a row), then the chain
+             /\ shape \in (IF api = "unmarshal_typed" THEN {"obj", "objskip", "objbad", "objdyn", "tree"}
                            ELSE IF api = "marshal_cycle" THEN {"obj"}
                            ELSE IF api \in EncodeAPIs THEN {"arr", "obj", "mixed"}
                            ELSE {"arr", "obj", "mixed", "arrsib", "objsib", "mixedsib"})
